@@ -1,6 +1,6 @@
 """Shared by C01/C02 (and later C06/C08/C09/C16): abstract transactions, rendering to journal text,
 S-expressions for the extracted model (driver drv_C01), parsing of ledger's register rows."""
-import re
+import re, random
 from fractions import Fraction as F
 import lib
 
@@ -50,6 +50,7 @@ class Post:
         # vcost: the cost is written (@) / (@@) - a "virtual cost", which enters no price history but balances like any cost
         self.acct, self.kind, self.amt, self.cost, self.lot, self.vcost = acct, kind, amt, cost, lot, vcost
         self.lot_date, self.lot_note = None, None       # the written [date] and (note) of a lot: part of the commodity's identity
+        self.indent, self.sep = '    ', None            # the written layout; sep None = four spaces and no line for the model
 
     def must_balance(self):
         return self.kind != 'V'
@@ -67,7 +68,7 @@ class Post:
     def text(self):
         a = {'R': '%s', 'V': '(%s)', 'B': '[%s]'}[self.kind] % self.acct
         if self.amt is None:
-            return '    ' + a
+            return self.indent + a + (self.sep or '')
         s = self.amt.text()
         if self.lot is not None:
             s += ' {%s}' % self.lot.text()
@@ -78,13 +79,18 @@ class Post:
         if self.cost is not None:
             op = '@' if self.cost[0] == 'u' else '@@'
             s += ' %s ' % (('(%s)' % op) if getattr(self, 'vcost', False) else op) + self.cost[1].text()
-        return '    %s    %s' % (a, s)
+        return '%s%s%s%s' % (self.indent, a, self.sep or '    ', s)
 
     def sx(self):
-        return ['post', self.acct.encode(), self.kind,
-                self.amt.sx(self.key()) if self.amt else '-',
-                [self.cost[0]] + self.cost[1].sx() if self.cost else '-',
-                self.lot.sx() if self.lot else '-']
+        r = ['post', self.acct.encode(), self.kind,
+             self.amt.sx(self.key()) if self.amt else '-',
+             [self.cost[0]] + self.cost[1].sx() if self.cost else '-',
+             self.lot.sx() if self.lot else '-']
+        if self.sep is not None:
+            # the line as written, after its indentation: the model of the line reader finds account, kind and the
+            # presence of an amount in it (Model/PostLine.v)
+            r.append(self.text()[len(self.indent):].encode())
+        return r
 
     def balancing(self):
         """(commodity, exact quantity) this posting contributes to the transaction's balance"""
@@ -119,6 +125,62 @@ class Xact:
 
     def nulls(self):
         return [p for p in self.posts if p.amt is None and p.must_balance()]
+
+
+GAPS = ['  ', '\t', ' \t', '\t ', '\t\t', '   ', '  \t', ' \t ', '    ', '\t  ', '      \t']
+INDENTS = [' ', '\t', '  ', '    ', '\t\t', ' \t', '        ']
+
+
+def vary_layout(rng, xacts, p=0.7):
+    """the same postings written differently: any indentation, any permitted gap between account and amount (a tab,
+    two or more spaces, blanks holding a tab), trailing blanks after an account without amount, a single space
+    inside an account name"""
+    for x in xacts:
+        for q in x.posts:
+            if rng.random() < p:
+                q.sep = rng.choice(GAPS)
+                q.indent = rng.choice(INDENTS)
+                if rng.random() < 0.15 and ':' in q.acct and ' ' not in q.acct:
+                    head, _, leaf = q.acct.rpartition(':')
+                    q.acct = head + ':' + leaf[:1] + ' ' + leaf[1:] if len(leaf) > 1 else q.acct
+    return xacts
+
+
+def written_variants(xs, layout=0.5, zero_costs=0.2):
+    """post-pass on a generated journal, driven by its own text (the main generator stream is left alone): a different
+    written layout for half the journals, and - where one elided amount absorbs whatever the rest sums to - some
+    written costs set to exactly zero (a grant: `10 ACME @ $0.00`)"""
+    import zlib
+    lrng = random.Random(zlib.crc32(render_journal(xs).encode()))
+    if lrng.random() < layout:
+        vary_layout(lrng, xs)
+    for x in xs:
+        if len(x.nulls()) == 1:
+            for q in x.posts:
+                if q.cost and q.lot is None and lrng.random() < zero_costs:
+                    q.cost = (q.cost[0], Amt(F(0), q.cost[1].dec, q.cost[1].sym))
+    return xs
+
+
+def gen_grant(rng):
+    """units received at a written cost of exactly zero beside a priced purchase, paid exactly (or off by one unit)"""
+    x, y = rng.sample(list(COMMS), 2)
+    dec = rng.choice([0, 2, 2, 3])
+    n1, n2 = rng.randrange(1, 200), rng.randrange(1, 200)
+    price = Amt(F(rng.randrange(1, 99999), 100), 2, y)
+    zero = (rng.choice(['u', 't']), Amt(F(0), dec, y))
+    posts = [Post(acct_of(rng, 'R'), 'R', Amt(F(n1), 0, x), zero, vcost=rng.random() < 0.2),
+             Post(acct_of(rng, 'R'), 'R', Amt(F(n2), 0, x), ('u', price))]
+    if rng.random() < 0.3:
+        posts = posts[:1] if rng.random() < 0.5 else posts
+    total = sum((q.balancing()[1] for q in posts), F(0))
+    off = F(rng.choice([0, 0, 0, 1, -2]))
+    if rng.random() < 0.5 and off == 0:
+        posts.append(Post('Null:' + acct_of(rng, 'R'), 'R', None))
+    else:
+        posts.append(Post(acct_of(rng, 'R'), 'R', Amt(-total + off, 2, y)))
+    rng.shuffle(posts)
+    return Xact(posts)
 
 
 BUCKET_STYLES = ['A %s\n\n', 'bucket %s\n\n', 'account %s\n    default\n\n']
@@ -227,7 +289,7 @@ def line_ranges(text):
         if m:
             cur = [n, n, int(m.group(1))]
             out.append(cur)
-        elif cur is not None and (l.startswith(' ') or l == ''):
+        elif cur is not None and (l[:1] in (' ', '\t') or l == ''):
             cur[1] = n
             if l == '':
                 cur = None
